@@ -55,6 +55,18 @@ BUILT = {
         note='Trusted: TLC, exact-kernel interpreter. Bounded: pupil axes <= 5 (quick) / 6, mask sizes <= 7, three nQ values, rational shifts; known finding: '
              'to_fpm_and_back with method=czt and a non-zero shift (listed in known_findings.jsonl).',
         technique='TLA+ spec (Dft.tla: EmbedLaw, TransposeLaw, MaskLaw, UnitaryLaw) checked by TLC; laws and exact values replayed into prysm as metamorphic behaviours'),
+    'C03': dict(
+        spec='Optics.tla',
+        text='Optics.tla carries wavelength, focal length, spacings and tilt as exact rationals and derives per axis what each route must report '
+             '(FFT route: N = ceil(nQ), dx\' = lam efl/(N dx), spot at k N/n; fixed sampling: Q = lam efl/(D dxo), spot at kQ + s). TLC checks that the '
+             'spacing helpers are exact inverses, that Q_for_sampling is consistent with them, that spot sample x true spacing = k lam efl / D for '
+             'integer and fractional tilts with and without shift, and derives the spot sample from the exact Fourier kernel itself (cyclotomic '
+             'arithmetic: all n terms in phase exactly at the predicted sample, exact zeros on the rest of the critical lattice). Each emitted '
+             'configuration is replayed: a tilted pupil through Wavefront.focus and focus_fixed_sampling (both methods), the displaced spot back '
+             'through unfocus / unfocus_fixed_sampling; landing sample, reported dx and reported coordinates are compared with the rationals.',
+        note='Trusted: TLC, numpy. Bounded: pupil axes 4..6 (quick) / 3..8, small rational menus; where the output spans more than one period the position '
+             'is not checked. Known finding (not repaired): Wavefront.focus on non-square arrays reports one dx (known_findings.jsonl).',
+        technique='TLA+ spec (Optics.tla, exact rational physics + cyclotomic kernel test) checked by TLC; emitted configurations replayed into Wavefront / fixed-sampling routes'),
 }
 
 NOT_BUILT_REASON = 'not built yet in this round (specification planned in DESIGN.md section 4; never decided by another technique)'
